@@ -530,11 +530,9 @@ class Interp:
                 self.assign(g.target, x, sub, e)
                 if all(self.truthy(self.ev(c, sub, depth)) for c in g.ifs):
                     k = self.ev(e.key, sub, depth)
-                    if isinstance(k, Sym):
-                        k = k.tag
-                    if not isinstance(k, (str, int)):
+                    if k is UNKNOWN:
                         return UNKNOWN
-                    d[k] = self.ev(e.value, sub, depth)
+                    d[self._hashable(k)] = self.ev(e.value, sub, depth)
             return d
         if isinstance(e, ast.Set):
             return set(self._hashable(self.ev(x, env, depth)) for x in e.elts)
@@ -759,8 +757,13 @@ class Interp:
                         return UNKNOWN
             if isinstance(base_s, str) and nm == "join" and len(args) == 1 and isinstance(args[0], list) and all(isinstance(x, str) for x in args[0]):
                 return base_s.join(args[0])
-        if isinstance(c.func, ast.Attribute) and nm in ("values", "keys", "items", "get", "add", "discard", "update") :
+        if isinstance(c.func, ast.Attribute) and nm in ("values", "keys", "items", "get", "add", "discard", "update", "setdefault") :
             base = self.ev(c.func.value, env, depth)
+            if isinstance(base, dict) and nm == "setdefault" and args and args[0] is not UNKNOWN:
+                k_ = self._hashable(args[0])
+                if k_ not in base:
+                    base[k_] = args[1] if len(args) > 1 else None
+                return base[k_]
             if isinstance(base, dict):
                 if nm == "values":
                     return list(base.values())
